@@ -66,6 +66,12 @@ claim("C16",
       "mutations of parameter containers (three of which change values on a read-only reactor: recorded known finding). Exact restoration of values is not decided.",
       COMMON_NOTE, "sibling agreement (push/pop) + dominance + ownership + aliasing lint", "DESIGN.md section 3 C16")
 
+claim("C17",
+      "Static conformance analysis (partial, exact): schema call dominating the store in Setting.setValue and frozen writers of Setting._value; dataflow of the renamed "
+      "setting name into the membership test and assignment; modified() returning its deep-copied duplicate on every path; writer skip filters per style, dump(), preserved "
+      "versions mapping, same root key; flag-list codec; sibling serialisers of cross-section options omitting exactly None. YAML fidelity per value is not decided.",
+      COMMON_NOTE, "dominance + ownership + def-use dataflow + sibling agreement", "DESIGN.md section 3 C17")
+
 NA_REASON = {}
 
 
